@@ -29,6 +29,7 @@ type pstate struct {
 	over   map[*cell]AV       // current value of variables (path-sensitive)
 	maps   map[int]mapState   // collector maps: entry for the request under analysis?
 	defers map[int][]deferred // per call frame
+	eff    bool               // a non-branch node was emitted on this path (the goroutine left its constructor prefix)
 }
 
 func newPS() *pstate {
@@ -45,6 +46,7 @@ func (s *pstate) clone() *pstate {
 	for k, v := range s.defers {
 		n.defers[k] = append([]deferred(nil), v...)
 	}
+	n.eff = s.eff
 	return n
 }
 
@@ -78,8 +80,10 @@ type loopCtx struct {
 
 type config struct {
 	assumeFalse []string // textual conditions of early returns that are assumed not taken
-	opaque      func(t *tr, recv AV, name string, ce *ast.CallExpr, args []AV) ([]AV, bool)
-	constants   map[string]AV // parameter bindings of the entry function by name
+	// opaque: template hook for calls on external objects; returns the continuations after the
+	// call (each with its results in cont.vals)
+	opaque    func(t *tr, recv AV, name string, ce *ast.CallExpr, args []AV) ([]*cont, bool)
+	constants map[string]AV // parameter bindings of the entry function by name
 }
 
 type tr struct {
@@ -103,6 +107,7 @@ type tr struct {
 	nextRoot      int    // id for the next root context created by the code (-1: allocate)
 	effMemo       map[*ast.BlockStmt]bool
 	carriedByName map[string][]AV
+	nilID         int
 	dataMaps      map[int]bool // collector maps that only ever hold data (from the previous pass)
 	dataMapsNew   map[int]bool
 	ranged        map[int]bool // data maps whose element is ranged over with channel operations in the body
@@ -172,6 +177,7 @@ func (t *tr) mergeConts(cs []*cont) []*cont {
 		if o, ok := idx[k]; ok {
 			o.pending = append(o.pending, c.pending...)
 			o.atEntry = o.atEntry || c.atEntry
+			o.ps.eff = o.ps.eff || c.ps.eff
 			continue
 		}
 		idx[k] = c
@@ -284,6 +290,7 @@ func (t *tr) emit(n *node) {
 	t.cur.atEntry = false
 	if n.kind != "branch" {
 		t.g.effects = true
+		t.cur.ps.eff = true
 	}
 }
 
@@ -1014,10 +1021,23 @@ func (t *tr) chanOf(e ast.Expr) (int, string) {
 		return c.id, "chan"
 	case avTick:
 		return 0, "tick"
-	case avNil, avZero:
+	case avNil:
+		// a nil channel: never ready, never closed
+		return t.nilChan(), "chan"
+	case avZero:
 		return 0, "nil"
 	}
 	return 0, "?"
+}
+
+// nilChan is the channel that stands for `nil`: nobody sends on it, nobody closes it (a receive
+// blocks for ever, a range never ends)
+func (t *tr) nilChan() int {
+	if t.nilID < 0 {
+		t.nilID = t.p.newChan("nil", 0)
+		t.p.chans[t.nilID].env = true
+	}
+	return t.nilID
 }
 
 // ctxDoneOf recognises `<expr>.Done()` and returns the context
